@@ -135,7 +135,7 @@ def materialise(scn, d, scheme='structural', name_tables=False):
     leaf = tj['hier'][-1]
     if name_tables:
         tree['name_mapper'] = {
-            nm.level(l): {nm.node(l, n): {'name': f'nm "{nm.node(l, n)}", x', 'alias': f'a{l}{n}'}
+            nm.level(l): {nm.node(l, n): {'name': f'nm{l} "{nm.node(l, n)}", x', 'alias': f'a{l}{n}'}
                           for n in tj['nodes'][i]} for i, l in enumerate(tj['hier'])}
         tree['hierarchy_mapper'] = {nm.level(l): f'H{l}' for l in tj['hier']}
     G = scn['G']
